@@ -49,19 +49,18 @@ Fixpoint obss_eqb (xs ys : list obs) : bool :=
 
 (* outcomes that S constrains: S's result is not undefined-function (there is no guard on programs or histories
    any more: repo_fixes/C08-3, C08-4) *)
-(* gs: the guard flags of the observations (Spec.fguards: false from a fmakunbound on that is not followed at once by
-   the redefinition of the name - known findings C08-fmakunbound) *)
-Fixpoint bad_count (gs : list bool) (ss xs : list obs) : nat :=
-  match gs, ss, xs with
-  | g :: gs', s :: ss', x :: xs' =>
-      (if g && ((comparable (fst s) && negb (obs_eqb s x)) || (negb (is_val (fst s)) && is_val (fst x))) then 1 else 0)
-      + bad_count gs' ss' xs'
-  | _, _, _ => 0
-  end.
-Fixpoint constrained (gs : list bool) (ss : list obs) : nat :=
-  match gs, ss with
-  | g :: gs', s :: ss' => (if g && comparable (fst s) then 1 else 0) + constrained gs' ss'
+(* outcomes that S constrains: S's result is not undefined-function (no guard on programs or histories) *)
+Fixpoint bad_count (ss xs : list obs) : nat :=
+  match ss, xs with
+  | s :: ss', x :: xs' =>
+      (if (comparable (fst s) && negb (obs_eqb s x)) || (negb (is_val (fst s)) && is_val (fst x)) then 1 else 0)
+      + bad_count ss' xs'
   | _, _ => 0
+  end.
+Fixpoint constrained (ss : list obs) : nat :=
+  match ss with
+  | s :: ss' => (if comparable (fst s) then 1 else 0) + constrained ss'
+  | _ => 0
   end.
 
 (* ---- well-formedness of what the harness sent: list identities are unique --------------------- *)
@@ -102,10 +101,10 @@ Definition check_case (c : case) : N :=
   let m := runM FUEL minit ops in
   let s := runS FUEL sinit ops in
   let l := runL FUEL sinit ops (pols_run FUEL minit ops) in
-  let gs := fguards FUEL minit true None ops in
+  let gs := before_fmak FUEL minit true ops in
   if negb (wf_case c) then 1%N
-  else if explained m s (snd c) then (if Nat.eqb (bad_count gs s m) 0 && Nat.eqb (exact_bad gs l m) 0 then 0%N else 3%N)
-  else if Nat.eqb (bad_count gs s (snd c)) 0 then 1%N else 2%N.
+  else if explained m s (snd c) then (if Nat.eqb (bad_count s m) 0 && Nat.eqb (exact_bad gs l m) 0 then 0%N else 3%N)
+  else if Nat.eqb (bad_count s (snd c)) 0 then 1%N else 2%N.
 Fixpoint check_all_from (i : N) (cs : list case) : list (N * N) :=
   match cs with
   | [] => []
@@ -114,9 +113,9 @@ Fixpoint check_all_from (i : N) (cs : list case) : list (N * N) :=
 Definition check_all := check_all_from 0%N.
 (* how many observed outcomes S constrained, and how many it did not (S says undefined-function) *)
 Definition guard_count (cs : list case) : N :=
-  N.of_nat (fold_left (fun a c => a + constrained (fguards FUEL minit true None (fst c)) (runS FUEL sinit (fst c))) cs 0).
+  N.of_nat (fold_left (fun a c => a + constrained (runS FUEL sinit (fst c))) cs 0).
 Definition outside_count (cs : list case) : N :=
-  N.of_nat (fold_left (fun a c => a + (List.length (snd c) - constrained (fguards FUEL minit true None (fst c)) (runS FUEL sinit (fst c)))) cs 0).
+  N.of_nat (fold_left (fun a c => a + (List.length (snd c) - constrained (runS FUEL sinit (fst c)))) cs 0).
 (* observed outcomes that differ from S where S is binding (they make code 2) *)
 Fixpoint dev_count (ss xs : list obs) : nat :=
   match ss, xs with
